@@ -104,6 +104,29 @@ def _first_word_term(r):
     return None
 
 
+def top_word_decision(r):
+    """(word term, path obtained a word, path decided `word != 0` on the word itself) for the first word read before any loop"""
+    w = _first_word_term(r)
+    if w is None:
+        return None, False, False
+    # did this path actually obtain a word (Some)?
+    got = False
+    nonzero = False
+    for t, v, _ in r.preds:
+        if t[0] == 'discr' and sym.contains(t[1], lambda x: x == w):
+            dv = sym.discr_variant(t, v)
+            # `Some(word)` matched directly, or `read()?.ok_or(..)?` continued (None was turned into the error)
+            if dv == 'Some' or (dv == 'Continue' and sym.contains(t[1], lambda x: isinstance(x, tuple) and x and x[0] == 'call' and str(x[1]).endswith(('::ok_or', '::ok_or_else')) and sym.contains(x, lambda y: y == w))):
+                got = True
+        if t[0] == 'bin' and t[1] in ('Eq', 'Ne'):
+            for a, b in ((t[2], t[3]), (t[3], t[2])):
+                # the word itself, possibly behind Option/Result plumbing (payload, unwrap, ok_or, `?`), but no arithmetic
+                if a[0] == 'k' and a[1] == 'zero' and b[0] in ('payload', 'unwrap') and sym.contains(b, lambda x: x == w) and not sym.contains(b, lambda x: isinstance(x, tuple) and x and x[0] == 'bin'):
+                    if (t[1] == 'Eq' and not v) or (t[1] == 'Ne' and v):
+                        nonzero = True
+    return w, got, nonzero
+
+
 def check_top_word_nonzero(ctx, F, body, who, exported_by):
     """An importer of *compressed* data (as opposed to raw binary data) must reject data whose top word is zero, because
     the matching exporter never emits a zero top word (it drops leading zero words of the state / drains the head down to
@@ -119,24 +142,9 @@ def check_top_word_nonzero(ctx, F, body, who, exported_by):
     for r in paths or []:
         if r.end != 'return' or r.ret is None or rules.ret_shape(r.ret)[0] != 'Ok':
             continue
-        w = _first_word_term(r)
+        w, got, nonzero = top_word_decision(r)
         if w is None:
             continue
-        # did this path actually obtain a word (Some)?
-        got = False
-        nonzero = False
-        for t, v, _ in r.preds:
-            if t[0] == 'discr' and sym.contains(t[1], lambda x: x == w):
-                dv = sym.discr_variant(t, v)
-                # `Some(word)` matched directly, or `read()?.ok_or(..)?` continued (None was turned into the error)
-                if dv == 'Some' or (dv == 'Continue' and sym.contains(t[1], lambda x: isinstance(x, tuple) and x and x[0] == 'call' and str(x[1]).endswith(('::ok_or', '::ok_or_else')) and sym.contains(x, lambda y: y == w))):
-                    got = True
-            if t[0] == 'bin' and t[1] in ('Eq', 'Ne'):
-                for a, b in ((t[2], t[3]), (t[3], t[2])):
-                    # the word itself, possibly behind Option/Result plumbing (payload, unwrap, ok_or, `?`), but no arithmetic
-                    if a[0] == 'k' and a[1] == 'zero' and b[0] in ('payload', 'unwrap') and sym.contains(b, lambda x: x == w) and not sym.contains(b, lambda x: isinstance(x, tuple) and x and x[0] == 'bin'):
-                        if (t[1] == 'Eq' and not v) or (t[1] == 'Ne' and v):
-                            nonzero = True
         if not got:
             continue
         n += 1
